@@ -482,7 +482,13 @@ fn exec_inner(ctx: &Arc<Ctx>, op: &OpSpec, slots: &mut Slots) -> i64 {
         }
 
         "set_depth" => {
-            if let Some(stream) = ctx.pipes[op.p - 1].stream.lock().unwrap().as_mut() { stream.set_backpressure_depth(op.n); }
+            // (the stream is taken out of its slot for the call: no harness lock is held across a scheduling point; a scenario must not
+            // use one stream from two threads at once, which no program could do either)
+            let stream = ctx.pipes[op.p - 1].stream.lock().unwrap().take();
+            if let Some(mut stream) = stream {
+                stream.set_backpressure_depth(op.n);
+                *ctx.pipes[op.p - 1].stream.lock().unwrap() = Some(stream);
+            }
             0
         }
 
